@@ -17,14 +17,14 @@ import (
 )
 
 type SolveResult struct {
-	Status  string  `json:"status"` // unsat (discharged), sat (refuted), unknown
-	Backend string  `json:"backend"`
-	Secs    float64 `json:"solver_s"`
-	Model   string  `json:"model,omitempty"`
+	Status  string   `json:"status"` // unsat (discharged), sat (refuted), unknown
+	Backend string   `json:"backend"`
+	Secs    float64  `json:"solver_s"`
+	Model   string   `json:"model,omitempty"`
 	Tried   []string `json:"tried,omitempty"`
-	Size    int     `json:"smt_bytes"`
-	Cached  bool    `json:"cached,omitempty"`
-	Output  string  `json:"-"`
+	Size    int      `json:"smt_bytes"`
+	Cached  bool     `json:"cached,omitempty"`
+	Output  string   `json:"-"`
 }
 
 var tokenRe = regexp.MustCompile(`[^\s()]+`)
@@ -192,6 +192,17 @@ func (s *Solver) Solve(sp *Specs, o *Obligation) *SolveResult {
 			os.Remove(file)
 		}
 	}()
+	if o.Kind == "canary" {
+		// only "not provable" matters: one back end, short timeout
+		status, _, el := runSolver(solvers[0], file, 3)
+		res.Tried = append(res.Tried, fmt.Sprintf("%s:%s:%.2fs", solvers[0].name, status, el))
+		res.Secs = el
+		res.Status, res.Backend = status, solvers[0].name
+		if status != "unsat" {
+			res.Status = "not-provable"
+		}
+		return res
+	}
 	for i, sv := range solvers {
 		status, out, el := runSolver(sv, file, s.Timeout)
 		res.Tried = append(res.Tried, fmt.Sprintf("%s:%s:%.2fs", sv.name, status, el))
